@@ -524,9 +524,42 @@ static std::string xresize(const Case& cs, Cur& cu)
   return obs(show(a), show(b), show(viaContainer));
 }
 
+// ---------------------------------------------------------------- xselfmul: A.rightmultiply(A), A.leftmultiply(A) (the factor is the object itself)
+static std::string xselfmul(const Case& cs, Cur& cu)
+{
+  const bool left = (cs.op == "xselfleft");
+  std::string out;
+  if (cs.rep == "DM") { DM A(cs.r, cs.r); loadM(A, cs.r, cs.r, cu); DM B(A); if (left) A.leftmultiply(A); else A.rightmultiply(A); return obs(show(A), show(A), show(B)); }
+  if (cs.r != R) throw std::runtime_error("wrong TU");
+  FM<R, R> A; loadM(A, R, R, cu); FM<R, R> B(A);
+  if (left) A.leftmultiply(A); else A.rightmultiply(A);
+  // also through the DenseMatrix base overload (FieldMatrix::rightmultiply(FieldMatrix) hides it only for FieldMatrix arguments)
+  FM<R, R> A2(B); DenseMatrix<FM<R, R>>& base = A2;
+  if (left) base.leftmultiply(base); else base.rightmultiply(base);
+  return obs(same({show(A), show(A2)}), show(A), show(B));
+}
+
+// ---------------------------------------------------------------- xvself: in-place vector operations with both arguments the same object
+template<class V> static std::string vself(V& x, const K& k)
+{
+  V a(x), b(x), c(x);
+  a += a; b -= b; c.axpy(k, c);
+  K d = x * x; K e = x.dot(x); bool eq = (x == x);
+  return obs(show(a), show(b), show(c) + "|" + show(d) + "|" + show(e) + "|" + b01(eq));
+}
+static std::string xvself(const Case& cs, Cur& cu)
+{
+  K k = cu.next();
+  if (cs.rep == "DV") { DV x(cs.r); loadV(x, cs.r, cu); return vself(x, k); }
+  if (cs.r != R) throw std::runtime_error("wrong TU");
+  FV<R> x; loadV(x, R, cu); return vself(x, k);
+}
+
 static std::string runExtra(const Case& cs, Cur& cu)
 {
   const std::string& op = cs.op;
+  if (op == "xvself") return xvself(cs, cu);
+  if (op == "xselfleft" || op == "xselfright") return xselfmul(cs, cu);
   if (op == "xfill") return xfill(cs, cu);
   if (op == "xcopy") return xcopy(cs, cu);
   if (op == "xmcopy") return xmcopy(cs, cu);
